@@ -277,6 +277,12 @@ func propC18(r *kernel.Run) {
 			name := fmt.Sprintf("feed%d", i)
 			r.Sched.Go(name, "feed", func() { sn.Dial("feed", name) })
 		}
+		if tp.Draw(2) == 0 {
+			// the SOURCE listener is closed (or fails) at some point while the multiplexing listener lives on: connections it
+			// delivered earlier are none of its business any more
+			r.Sched.Go("feedclose0", "feedclose", func() { sl.Close() })
+			r.Count("ops.source_listener_closed_mid_run", 1)
+		}
 	}
 	for i := 0; i < m; i++ {
 		name := fmt.Sprintf("accept%d", i)
